@@ -23,6 +23,10 @@ type ProbeFacts struct {
 	ForceCloseGuard string `json:"forceCloseGuard"` // conditions between the Shutdown-error branch and c.Close() ("" = none; "-" = no Close there)
 	ShutdownErrCond string `json:"shutdownErrCond"` // condition of the branch taken when Shutdown fails
 	SkipCond        string `json:"skipCond"`        // condition under which ipWorker skips a registered device
+	// who starts a discovery run: the functions that call Driver.discover / autoDiscover, and how Discover bounds its run
+	DiscoverCallers     []string `json:"discoverCallers"`
+	AutoDiscoverCallers []string `json:"autoDiscoverCallers"`
+	DiscoverBound       string   `json:"discoverBound"` // "<ctx constructor>(<duration>) if <condition>" in Driver.Discover
 }
 
 func probeFacts(p *Pkg) ProbeFacts {
@@ -117,5 +121,56 @@ func probeFacts(p *Pkg) ProbeFacts {
 	if out.SkipCond == "" {
 		fail("ipWorker: the branch that skips a registered device (`if <cond> { …; continue }`) was not found")
 	}
+	// callers of discover / autoDiscover in the package (a discovery run started any other way than through Discover
+	// does not get Discover's maximum duration)
+	for _, f := range p.files {
+		for _, d := range f.Decls {
+			fd, ok := d.(*ast.FuncDecl)
+			if !ok || fd.Body == nil {
+				continue
+			}
+			name := fd.Name.Name
+			if fd.Recv != nil && len(fd.Recv.List) == 1 {
+				t := fd.Recv.List[0].Type
+				if st, ok := t.(*ast.StarExpr); ok {
+					t = st.X
+				}
+				name = types.ExprString(t) + "." + name
+			}
+			ast.Inspect(fd.Body, func(n ast.Node) bool {
+				c, ok := n.(*ast.CallExpr)
+				if !ok {
+					return true
+				}
+				switch fn := c.Fun.(type) {
+				case *ast.SelectorExpr:
+					if fn.Sel.Name == "discover" {
+						out.DiscoverCallers = append(out.DiscoverCallers, name)
+					}
+				case *ast.Ident:
+					if fn.Name == "autoDiscover" {
+						out.AutoDiscoverCallers = append(out.AutoDiscoverCallers, name)
+					}
+				}
+				return true
+			})
+		}
+	}
+	// Driver.Discover: `if <cond> { ctx, cancel = context.<Kind>(…, <duration>) … }`
+	disc := findFunc(p, "Driver.Discover")
+	ast.Inspect(disc.Body, func(n ast.Node) bool {
+		is, ok := n.(*ast.IfStmt)
+		if !ok {
+			return true
+		}
+		for _, st := range is.Body.List {
+			if as, ok := st.(*ast.AssignStmt); ok && len(as.Rhs) == 1 {
+				if c, ok := as.Rhs[0].(*ast.CallExpr); ok && strings.HasPrefix(types.ExprString(c.Fun), "context.With") && len(c.Args) == 2 {
+					out.DiscoverBound = strings.TrimPrefix(types.ExprString(c.Fun), "context.") + "(" + types.ExprString(c.Args[1]) + ") if " + types.ExprString(is.Cond)
+				}
+			}
+		}
+		return true
+	})
 	return out
 }
